@@ -11,6 +11,7 @@ Section LsProofs.
   Variable fact : Type.
   Variable diag : Type.
   Variable written dropped drained observable : table -> bool.
+  Variable close_handled remove_forgets : bool.
   Variable pass1 : file -> content -> table -> list fact.
   Variable diagf : file -> (table -> file -> list fact) -> diag.
 
@@ -24,14 +25,15 @@ Section LsProofs.
   Notation post_pass := (post_pass table fact drained).
   Notation on_change := (on_change table content fact diag written dropped drained pass1 diagf).
   Notation background := (background table content fact written dropped drained pass1).
-  Notation on_remove := (on_remove table content fact dropped).
-  Notation step := (step table content fact diag written dropped drained pass1 diagf).
-  Notation run := (run table content fact diag written dropped drained pass1 diagf).
+  Notation on_remove := (on_remove table content fact dropped remove_forgets).
+  Notation forget := (forget table content fact dropped).
+  Notation step := (step table content fact diag written dropped drained close_handled remove_forgets pass1 diagf).
+  Notation run := (run table content fact diag written dropped drained close_handled remove_forgets pass1 diagf).
   Notation refresh := (refresh table content fact diag written dropped drained pass1 diagf).
   Notation spec_tables := (spec_tables table content fact written drained pass1).
   Notation diags_spec := (diags_spec table content fact diag written drained pass1 diagf).
-  Notation hist_ok := (hist_ok table content fact diag written dropped drained pass1 diagf).
-  Notation ev_ok := (ev_ok table content fact).
+  Notation hist_ok := (hist_ok table content fact diag written dropped drained close_handled remove_forgets pass1 diagf).
+  Notation ev_ok := (ev_ok table content fact close_handled).
   Notation cur := (cur content).
 
   (* ------------------------------------------------------------------ invariant *)
@@ -193,14 +195,18 @@ Section LsProofs.
       rewrite E. destruct (disk _ w g); simpl; auto.
   Qed.
 
-  (* dropping a file that is no longer current (removed from disk and not open) *)
-  Lemma inv_remove_file : forall w s f dk,
+  (* dropping a file that is no longer current (removed from disk and not open); the server may or may not
+     forget its document_map entry *)
+  Lemma inv_remove_file_gen : forall w s f dk dm,
     Inv (w, s) ->
     (forall g, g <> f -> dk g = disk _ w g) -> dk f = None ->
-    Inv (mkWorld _ dk (upd (editor _ w) f None), on_remove f s).
+    (forall g, dm g = docmap _ _ _ s g \/ (g = f /\ dm g = None)) ->
+    Inv (mkWorld _ dk (upd (editor _ w) f None),
+         mkSrv table content fact (drop_file f (tabs _ _ _ s)) dm (analysed _ _ _ s)).
   Proof.
-    intros w s f dk (I1 & I2 & I3 & I4) Hdk Hf. unfold Inv. repeat split.
-    - intros g c. simpl. unfold upd. eqb_cases; [discriminate | apply I1].
+    intros w s f dk dm (I1 & I2 & I3 & I4) Hdk Hf Hdm. unfold Inv. repeat split.
+    - intros g c. simpl. unfold upd. destruct (Nat.eqb_spec g f); subst; [discriminate|].
+      intro E. apply I1 in E. destruct (Hdm g) as [X | [X _]]; [congruence | contradiction].
     - intros. simpl. unfold LsModel.drop_file. rewrite I2 by auto. destruct (dropped t && (g =? f)); reflexivity.
     - intros. simpl. unfold LsModel.drop_file. rewrite I3 by auto. destruct (dropped t && (g =? f)); reflexivity.
     - simpl analysed. destruct (analysed _ _ _ s).
@@ -209,8 +215,28 @@ Section LsProofs.
         destruct (Nat.eqb_spec g f); subst.
         * rewrite Hf. reflexivity.
         * rewrite Hdk by auto. apply (I4 t g Hd Hp).
-      + destruct I4 as [T D]. split; auto. intros. simpl. unfold LsModel.drop_file. rewrite T.
-        destruct (dropped t && (g =? f)); reflexivity.
+      + destruct I4 as [T D]. split.
+        * intros. simpl. unfold LsModel.drop_file. rewrite T. destruct (dropped t && (g =? f)); reflexivity.
+        * intro g. simpl. destruct (Hdm g) as [X | [_ X]]; [rewrite X; apply D | exact X].
+  Qed.
+
+  Lemma inv_remove_file : forall w s f dk,
+    Inv (w, s) ->
+    (forall g, g <> f -> dk g = disk _ w g) -> dk f = None ->
+    Inv (mkWorld _ dk (upd (editor _ w) f None), on_remove f s).
+  Proof.
+    intros. unfold LsModel.on_remove. apply inv_remove_file_gen; auto.
+    intro g. destruct remove_forgets; auto. unfold upd.
+    destruct (Nat.eqb_spec g f); subst; auto.
+  Qed.
+
+  Lemma inv_forget_file : forall w s f dk,
+    Inv (w, s) ->
+    (forall g, g <> f -> dk g = disk _ w g) -> dk f = None ->
+    Inv (mkWorld _ dk (upd (editor _ w) f None), forget f s).
+  Proof.
+    intros. unfold LsModel.forget. apply inv_remove_file_gen; auto.
+    intro g. unfold upd. destruct (Nat.eqb_spec g f); subst; auto.
   Qed.
 
   (* changing the disk where the server looks again (background) or where the column is already right *)
@@ -233,15 +259,24 @@ Section LsProofs.
       destruct (Nat.eqb_spec g f); subst; auto. rewrite E. reflexivity.
     - (* Close *)
       destruct (editor _ w f) eqn:E; auto.
-      simpl in OK. specialize (OK _ E).
-      destruct I as (I1 & I2 & I3 & I4). unfold Inv. repeat split; auto.
-      + intros g c0. simpl. unfold upd. eqb_cases; [discriminate | apply I1].
-      + destruct (analysed _ _ _ s); auto.
-        intros t g Hd Hp. rewrite (I4 t g Hd Hp). unfold LsModel.cur. simpl. unfold upd.
-        destruct (Nat.eqb_spec g f); subst; auto. rewrite E, OK. reflexivity.
+      destruct close_handled eqn:CH.
+      + (* didClose handled: forget the buffer, drop the file, re-read it from disk *)
+        assert (J0 : Inv (mkWorld content (upd (disk _ w) f None) (upd (editor _ w) f None), forget f s)).
+        { apply inv_forget_file; auto.
+          - intros h Hh. unfold upd. destruct (Nat.eqb_spec h f); [contradiction | reflexivity].
+          - unfold upd. rewrite Nat.eqb_refl. reflexivity. }
+        eapply inv_background_resync; [exact J0 | reflexivity | | reflexivity].
+        intro h. simpl. unfold upd. destruct (Nat.eqb_spec h f); subst; auto.
+      + simpl in OK. destruct OK as [OK | OK]; [discriminate|]. specialize (OK _ E).
+        destruct I as (I1 & I2 & I3 & I4). unfold Inv. repeat split; auto.
+        * intros g c0. simpl. unfold upd. eqb_cases; [discriminate | apply I1].
+        * destruct (analysed _ _ _ s); auto.
+          intros t g Hd Hp. rewrite (I4 t g Hd Hp). unfold LsModel.cur. simpl. unfold upd.
+          destruct (Nat.eqb_spec g f); subst; auto. rewrite E, OK. reflexivity.
     - (* Rename *)
       simpl in OK.
       destruct (disk _ w f) eqn:K; auto. destruct (disk _ w g) eqn:Kg; auto.
+      specialize (OK eq_refl).
       destruct (Nat.eqb_spec f g) as [|NE]; auto.
       (* state after willRename, with the file gone from disk and its buffer (if any) closed *)
       assert (J0 : Inv (mkWorld content (upd (disk _ w) f None) (upd (editor _ w) f None), on_remove f s)).
@@ -254,14 +289,18 @@ Section LsProofs.
         assert (J1 : Inv (wm, background w1 (on_remove f s))).
         { eapply inv_background_resync; [exact J0 | reflexivity | | reflexivity].
           intro h. simpl. unfold upd at 1. destruct (Nat.eqb_spec h g); subst; auto.
-          right. split; auto. unfold upd. destruct (Nat.eqb_spec g f); auto. }
+          right. split.
+          { simpl. destruct remove_forgets; auto. unfold upd. destruct (Nat.eqb_spec g f); auto. }
+          { unfold upd. destruct (Nat.eqb_spec g f); auto. } }
         apply inv_background.
         apply (inv_on_change wm _ g c0 J1). reflexivity.
       + set (w1 := mkWorld content (upd (upd (disk _ w) f None) g (Some c)) (editor _ w)).
         eapply inv_background_resync; [exact J0 | | | reflexivity].
         * intro h. simpl. unfold upd. destruct (Nat.eqb_spec h f); subst; auto.
         * intro h. simpl. unfold upd at 1. destruct (Nat.eqb_spec h g); subst; auto.
-          right. split; auto. unfold upd. destruct (Nat.eqb_spec g f); auto.
+          right. split.
+          { simpl. destruct remove_forgets; auto. unfold upd. destruct (Nat.eqb_spec g f); auto. }
+          { unfold upd. destruct (Nat.eqb_spec g f); auto. }
     - (* Delete *)
       destruct (disk _ w f) eqn:K; auto.
       apply inv_remove_file; auto.
@@ -352,6 +391,86 @@ Section LsProofs.
     apply diags_spec_ext; auto.
   Qed.
 
+  (* ------------------------------------------------------------------ a server that handles didClose *)
+  (* With did_close handled and on_remove forgetting the buffer, document_map is exactly the set of buffers the
+     editor has open, every open buffer has a file, and therefore EVERY history is admissible. *)
+  Definition Inv2 (st : world * srv) : Prop :=
+    let (w, s) := st in
+    (forall f c, docmap _ _ _ s f = Some c -> editor _ w f = Some c) /\
+    (forall f c, editor _ w f = Some c -> disk _ w f <> None).
+
+  Arguments Inv2 : simpl never.
+
+  Ltac fin2 := intros; first [congruence | solve [eauto] | (intro; congruence) | idtac].
+
+  Lemma inv2_step : close_handled = true -> remove_forgets = true ->
+    forall st e, Inv2 st -> Inv2 (step st e).
+  Proof.
+    intros CH RF [w s] e [J1 J2]. destruct e as [f | f c | f | f | f g | f]; cbn [LsModel.step].
+    - destruct (disk _ w f) eqn:K; [|split; auto]. destruct (editor _ w f) eqn:E; [split; auto|].
+      unfold Inv2. simpl. unfold upd. split; intros h cc; destruct (Nat.eqb_spec h f); subst; fin2.
+    - destruct (editor _ w f) eqn:E; [|split; auto].
+      unfold Inv2. simpl. unfold upd. split; intros h cc; destruct (Nat.eqb_spec h f); subst; fin2.
+    - destruct (editor _ w f) eqn:E; [|split; auto].
+      unfold Inv2. simpl. unfold upd. split; auto. intros h cc; destruct (Nat.eqb_spec h f); subst; fin2.
+    - destruct (editor _ w f) eqn:E; [|split; auto]. rewrite CH.
+      unfold Inv2. simpl. unfold upd. split; intros h cc; destruct (Nat.eqb_spec h f); subst; fin2.
+    - destruct (disk _ w f) eqn:K; [|split; auto]. destruct (disk _ w g) eqn:Kg; [split; auto|].
+      destruct (Nat.eqb_spec f g) as [|NE]; [split; auto|].
+      destruct (editor _ w f) eqn:E.
+      + unfold Inv2. simpl. rewrite RF. unfold upd. split; intros h cc.
+        * destruct (Nat.eqb_spec h g); subst; fin2. destruct (Nat.eqb_spec h f); subst; fin2.
+        * destruct (Nat.eqb_spec h g); subst; fin2. destruct (Nat.eqb_spec h f); subst; fin2.
+      + unfold Inv2. simpl. rewrite RF. unfold upd. split; intros h cc.
+        * destruct (Nat.eqb_spec h f); subst; fin2.
+        * destruct (Nat.eqb_spec h g); subst; fin2. destruct (Nat.eqb_spec h f); subst; fin2.
+    - destruct (disk _ w f) eqn:K; [|split; auto].
+      unfold Inv2. simpl. rewrite RF. unfold upd. split; intros h cc; destruct (Nat.eqb_spec h f); subst; fin2.
+  Qed.
+
+  Lemma ev_ok_of_inv2 : close_handled = true -> forall st e, Inv2 st -> ev_ok st e.
+  Proof.
+    intros CH [w s] e [J1 J2]. destruct e; simpl; auto.
+    intro Kg. destruct (docmap _ _ _ s g) eqn:D; auto.
+    apply J1 in D. apply J2 in D. contradiction.
+  Qed.
+
+  Lemma hist_ok_always : close_handled = true -> remove_forgets = true ->
+    forall h st, Inv2 st -> hist_ok st h.
+  Proof.
+    intros CH RF. induction h as [|e h IH]; intros st J; simpl; auto.
+    split; [apply ev_ok_of_inv2; auto | apply IH; apply inv2_step; auto].
+  Qed.
+
+  (* MAIN THEOREM for a server that handles didClose and forgets removed buffers: no condition on the history *)
+  Theorem ls_refines_spec_all :
+    discipline -> reads_observable_only ->
+    close_handled = true -> remove_forgets = true ->
+    forall w0 h f d,
+      (forall g, editor _ w0 g = None) ->
+      refresh (run w0 h) f = Some d ->
+      d = diags_spec (cur (fst (run w0 h))) f.
+  Proof.
+    intros DISC RO CH RF w0 h f d E0 R.
+    eapply ls_refines_spec; eauto.
+    apply hist_ok_always; auto. split; simpl; [discriminate | intros; rewrite E0 in *; discriminate].
+  Qed.
+
+  Theorem ls_history_independent_all :
+    discipline -> reads_observable_only ->
+    close_handled = true -> remove_forgets = true ->
+    forall w1 h1 w2 h2 f d1 d2,
+      (forall g, editor _ w1 g = None) -> (forall g, editor _ w2 g = None) ->
+      (forall g, cur (fst (run w1 h1)) g = cur (fst (run w2 h2)) g) ->
+      refresh (run w1 h1) f = Some d1 -> refresh (run w2 h2) f = Some d2 ->
+      d1 = d2.
+  Proof.
+    intros DISC RO CH RF w1 h1 w2 h2 f d1 d2 E1 E2 C R1 R2.
+    rewrite (ls_refines_spec_all DISC RO CH RF w1 h1 f d1 E1 R1).
+    rewrite (ls_refines_spec_all DISC RO CH RF w2 h2 f d2 E2 R2).
+    apply diags_spec_ext; auto.
+  Qed.
+
 End LsProofs.
 
 (* ---------------------------------------------------------------------- converse witness schema *)
@@ -360,6 +479,7 @@ Section StaleWitness.
   Variable content : Type.
   Variable fact : Type.
   Variable written dropped drained : table -> bool.
+  Variable close_handled remove_forgets : bool.
   Variable pass1 : file -> content -> table -> list fact.
   Variable feqb : fact -> fact -> bool.
 
@@ -379,17 +499,17 @@ Section StaleWitness.
     existsb (feqb x) (pass1 f c2 t) = false ->
     let D := reveal t x in
     let h := [Open f; Change f c2] in
-    let st := run table content fact bool written dropped drained pass1 D (only_file f c1) h in
-    hist_ok table content fact bool written dropped drained pass1 D
+    let st := run table content fact bool written dropped drained close_handled remove_forgets pass1 D (only_file f c1) h in
+    hist_ok table content fact bool written dropped drained close_handled remove_forgets pass1 D
             (only_file f c1, init_srv table content fact) h /\
     refresh table content fact bool written dropped drained pass1 D st f = Some true /\
     diags_spec table content fact bool written drained pass1 D (cur content (fst st)) f = false /\
     refresh table content fact bool written dropped drained pass1 D
-            (run table content fact bool written dropped drained pass1 D (only_file f c2) [Open f]) f
+            (run table content fact bool written dropped drained close_handled remove_forgets pass1 D (only_file f c2) [Open f]) f
       = Some false.
   Proof.
     intros t x f c1 c2 Hw Hp Hd H1 H2 D h st.
-    cbv [st h D reveal run refresh diags_spec spec_tables only_file init_srv empty_tables fold_left step
+    cbv [st h D reveal run refresh diags_spec spec_tables only_file init_srv empty_tables fold_left step forget on_remove
          hist_ok ev_ok disk editor fst snd on_change background docmap tabs upd cur write_file drop_file
          post_pass contrib_opt contrib analysed].
     repeat (rewrite ?Nat.eqb_refl, ?Hw, ?Hp, ?Hd; cbv beta iota; simpl).
@@ -419,7 +539,7 @@ Section ProtocolWitnesses.
   Ltac crunch Hfg Hgf :=
     repeat (rewrite ?Nat.eqb_refl, ?Hfg, ?Hgf; cbv beta iota; simpl).
 
-  (* didClose is not handled by the server: closing a buffer with unsaved edits (the editor discards them, the
+  (* When didClose is not handled by the server (close_handled = false): closing a buffer with unsaved edits (the editor discards them, the
      file on disk keeps c1) leaves the discarded text c2 analysed, even for a perfectly dropped table. *)
   Theorem dirty_close_witness : forall t x f g c0 c1 c2,
     f <> g ->
@@ -428,7 +548,7 @@ Section ProtocolWitnesses.
     existsb (feqb x) (pass1 f c1 t) = false ->
     let D := reveal_at t x f in
     let h := [Open g; Open f; Change f c2; Close f] in
-    let st := run table content fact bool written dropped drained pass1 D (files3 f c1 g c0 0 None) h in
+    let st := run table content fact bool written dropped drained false false pass1 D (files3 f c1 g c0 0 None) h in
     refresh table content fact bool written dropped drained pass1 D st g = Some true /\
     diags_spec table content fact bool written drained pass1 D (cur content (fst st)) g = false.
   Proof.
@@ -443,7 +563,7 @@ Section ProtocolWitnesses.
     rewrite ?Hw, ?Hp, ?Hd. crunch Hfg Hgf.
     rewrite ?H1, ?H2. split; reflexivity.
   Qed.
-  (* document_map never shrinks: after a file that was once open disappears (delete / rename away), a file renamed
+  (* When document_map never shrinks (close_handled = remove_forgets = false): after a file that was once open disappears (delete / rename away), a file renamed
      onto the same path is skipped by background_analyze and stays unanalysed. *)
   Theorem rename_onto_docmap_witness : forall t x f g k c0 c1 c2,
     f <> g -> f <> k -> g <> k ->
@@ -451,7 +571,7 @@ Section ProtocolWitnesses.
     existsb (feqb x) (pass1 f c2 t) = true ->
     let D := reveal_at t x f in
     let h := [Open g; Open f; Close f; Delete f; Rename k f] in
-    let st := run table content fact bool written dropped drained pass1 D (files3 f c1 g c0 k (Some c2)) h in
+    let st := run table content fact bool written dropped drained false false pass1 D (files3 f c1 g c0 k (Some c2)) h in
     refresh table content fact bool written dropped drained pass1 D st g = Some false /\
     diags_spec table content fact bool written drained pass1 D (cur content (fst st)) g = true.
   Proof.
